@@ -11,6 +11,7 @@ import (
 	"github.com/tikv/client-go/v2/verif/ev"
 	"github.com/tikv/client-go/v2/verif/prog"
 	_ "github.com/tikv/client-go/v2/verif/quiet"
+	"github.com/tikv/client-go/v2/verif/scen"
 	"github.com/tikv/client-go/v2/verif/sim"
 	"pgregory.net/rapid"
 )
@@ -73,6 +74,9 @@ func histories(t *testing.T, backend sim.Backend) {
 		}
 		var vs []string
 		for _, v := range res.Viol {
+			if v.Rule == "termination" {
+				t.Fatalf("VERIF-INFRA: a call did not terminate (judged by C02 / C05, not by this property): %s\n  program: %s", v.Msg, prog)
+			}
 			if v.Known != "" && rec.Excluding(v.Known) {
 				continue // a listed known finding: excluded from the search and counted (see TestKnownFindings)
 			}
@@ -134,3 +138,51 @@ func TestKnownFindings(t *testing.T) {
 			map[string]any{"scenario": progString(steps), "backend": backend.String(), "manifested": manifested})
 	}
 }
+
+// crashHistories checks the isolation rules on histories in which a committing client dies (generator and
+// crash sweep of C02): whatever the recovery decides must still be a snapshot-isolated history - in particular a
+// transaction whose insert found the key present must not become visible through recovery.
+func crashHistories(t *testing.T, backend sim.Backend) {
+	rec := ev.For(t, "C01", "commit scenarios of the C02 generator (initial data, one victim transaction incl. inserts and insert-then-delete, optional conflicting commit, recovery transactions of another client) with the victim client killed before / after a request of Commit at up to 6 evenly spaced positions; after expiry and recovery the isolation rules R-read, R-ww, R-lock, R-insert, R-ext are evaluated on the whole history; non-trivial = the victim is committed by the recovery; distinct = scenario + crash point")
+	rules := map[string]bool{"read": true, "ww": true, "lock": true, "insert": true, "ext": true}
+	rapid.Check(t, func(t *rapid.T) {
+		p := scen.Gen(t, backend)
+		base := scen.Run(p, scen.Opts{Rules: rules})
+		if base.Hung != "" || base.Infra != "" {
+			t.Fatalf("VERIF-INFRA: %s %s | %s", base.Hung, base.Infra, p)
+		}
+		n := base.RPCs
+		var points []int
+		for j := 0; j < 6 && n > 0; j++ {
+			points = append(points, j*(n-1)/5)
+		}
+		for idx, i := range points {
+			if idx > 0 && points[idx-1] == i {
+				continue
+			}
+			for _, mode := range []string{"kill", "killAfter"} {
+				o := scen.Run(p, scen.Opts{Faults: []sim.FaultSpec{{Type: "", Index: i, Action: mode}}, KillIfAlive: true, Rules: rules})
+				if o.Hung != "" || o.Infra != "" {
+					t.Fatalf("VERIF-INFRA: %s %s | crash=%s@%d | %s", o.Hung, o.Infra, mode, i, p)
+				}
+				var vs []sim.Violation
+				for _, v := range o.Viol {
+					if v.Rule == "termination" {
+						t.Fatalf("VERIF-INFRA: a call did not terminate (judged by C02 / C05): %s", v.Msg)
+					}
+					if v.Rule == "atomicity" || v.Rule == "durability" || (v.Known != "" && rec.Excluding(v.Known)) {
+						continue // atomicity is C02's rule
+					}
+					vs = append(vs, v)
+				}
+				if o.Viol = vs; len(vs) > 0 {
+					t.Fatalf("history after crash recovery violates snapshot isolation:\n  crash point: %s at commit RPC #%d of %d\n  %s", mode, i, n, o.Describe(p))
+				}
+				rec.Case(fmt.Sprintf("%s|%s@%d", p, mode, i), o.Fate == "committed", []string{"crash=" + mode, "fate=" + o.Fate, "backend=" + backend.String()}, nil)
+			}
+		}
+	})
+}
+
+func TestCrashHistories(t *testing.T)    { crashHistories(t, sim.Mock) }
+func TestCrashHistoriesUni(t *testing.T) { crashHistories(t, sim.Uni) }
